@@ -35,6 +35,9 @@ type CheckSpec struct {
 	OwnsPanics  bool
 	Race        bool
 	RealStub    []string
+	// Probes are the rare conditions the scenarios of this check are expected
+	// to reach; those never hit are listed as unreached in the evidence.
+	Probes []string
 }
 
 var commonAssumptions = []string{
@@ -402,9 +405,26 @@ func runnerMain() int {
 			sh := exec.Command(os.Args[0], "-test.run", "^TestSim$", "-test.timeout", "0", "-sim.role=shrink", "-sim.file="+path)
 			sh.Run()
 		}
-		rc := exec.Command(os.Args[0], "-test.run", "^TestSim$", "-test.timeout", "0", "-sim.role=replay", "-sim.file="+path)
-		outb, _ := rc.CombinedOutput()
-		if rc.ProcessState != nil && rc.ProcessState.ExitCode() == 1 && (bytes.Contains(outb, []byte("reproduced:")) || spec.Race) {
+		confirm := func() ([]byte, bool) {
+			var outb []byte
+			for try := 0; try < 5; try++ {
+				rc := exec.Command(os.Args[0], "-test.run", "^TestSim$", "-test.timeout", "0", "-sim.role=replay", "-sim.file="+path)
+				outb, _ = rc.CombinedOutput()
+				if rc.ProcessState != nil && rc.ProcessState.ExitCode() == 1 && (bytes.Contains(outb, []byte("reproduced:")) || spec.Race) {
+					return outb, true
+				}
+			}
+			return outb, false
+		}
+		outb, ok := confirm()
+		if !ok {
+			// the minimised file does not reproduce (the library itself may
+			// behave nondeterministically, e.g. a select with two ready
+			// cases): fall back to the original run
+			os.WriteFile(path, b, 0o644)
+			outb, ok = confirm()
+		}
+		if ok {
 			fmt.Printf("violation: class=%s signature=%q seen in %d runs; first at seed %d\n  %s\n", v.Class, v.Signature, a.violCount[k], rr.Seed, firstLines(v.Detail, 8))
 			fmt.Printf("VIOLATION property=%s replay=%s\n", v.Property, path)
 			exit = 1
@@ -444,6 +464,11 @@ func runnerMain() int {
 		"assumptions": append(append([]string{}, commonAssumptions...), spec.Assumptions...),
 	}
 	unreached := []string{}
+	for _, pr := range spec.Probes {
+		if a.probes[pr] == 0 {
+			unreached = append(unreached, pr)
+		}
+	}
 	cov := map[string]interface{}{
 		"evaluations":         a.evals + a.runs,
 		"distinct_nontrivial": len(a.sched),
